@@ -565,12 +565,28 @@ func attPartition(g gen.G, p *attPlan, mode int) {
 	case 4:
 		p.Mode = "single-write"
 		p.Cuts = []int{len(b.stream)}
+	case 5: // a control frame (or the previous chunk) TOGETHER with the first k bytes of the next chunk header in one write,
+		// k rotating over the positions around the header's fields (marker 4, name 50, offset 4, length 4 = 62 bytes)
+		p.Mode = "unit-plus-partial-header"
+		ks := []int{1, 3, 4, 5, 53, 54, 55, 57, 58, 59, 60, 61, 62, 63}
+		rot := g.Intn(len(ks))
+		start := 0
+		for i, u := range b.units {
+			if !u.Ctrl && i > 0 {
+				k := ks[(i+rot)%len(ks)]
+				if start+k < b.ends[i] {
+					p.Cuts = append(p.Cuts, start+k)
+				}
+			}
+			start = b.ends[i]
+		}
+		p.Cuts = append(p.Cuts, len(b.stream))
 	}
 }
 
 func c15Worker(c *core.Collector, x *Ctx) {
 	c.Rule = "upload sessions: 1-4 files, sizes 1 B..3 chunk sizes (chunk 1..4096), names / alarm IDs / terminal IDs / phone over arbitrary bytes incl. the marker 30 31 63 64, chunk orders in-order/reversed/shuffled with identical resends, all five dialects (HLJ length-prefixed header, names up to 200 B), " +
-		"partitions: one unit per write, neighbours coalesced (control frame + chunk), random cuts, cuts inside every chunk header, single write; ALL 1-cuts of short sessions. evaluation = one session; distinct by hash of (plan, partition)"
+		"partitions: one unit per write, neighbours coalesced (control frame + chunk), random cuts, cuts inside every chunk header, a unit together with the first k bytes of the next chunk header (k around every header field boundary), single write; ALL 1-cuts of short sessions. evaluation = one session; distinct by hash of (plan, partition)"
 	sessions := c.Counter("sessions")
 	tcpSessions := c.Counter("tcp_sessions")
 	addr, terr := att.StartTCP(attachment.WithFileEventerFunc(func() attachment.FileEventer { return &att.Recorder{} }))
@@ -606,7 +622,7 @@ func c15Worker(c *core.Collector, x *Ctx) {
 		g := gen.G{Rand: core.NewRand(c.Seed, "c15", uint64(i))}
 		p := attGenPlan(g, i, false)
 		p.Gen = "random-session"
-		attPartition(g, p, i%5)
+		attPartition(g, p, i%6)
 		run(p, false)
 		if i%97 == 0 && c.WantSample() {
 			c.Sample(map[string]any{"dialect": p.Dialect, "files": p.Files, "partition": p.Mode, "alarm_id": p.AlarmID})
